@@ -185,6 +185,41 @@ pub fn run_c09(cx: &mut Cx) {
                         probe(cx, victim, suite, art, f, format!("{name}:@{off}"), forbidden);
                     }
                 }
+                // the same substitutions through the serde decoder (it bypasses from_bytes)
+                if art != Art::BlindFactor {
+                    let (b1, h1) = (b.clone(), h.clone());
+                    cx.step(victim, "to_json", StepOpts::default(), move || api::to_json(suite, art, &b1), move |cx, st| {
+                        let Ok(Ok(text)) = st.out else { return };
+                        let b = honest_of(&h1, art);
+                        for slot in slots(art, b.len()) {
+                            let (off, n) = match slot { Slot::G1(o, _) => (o, 48), Slot::G2(o) => (o, 96), Slot::Scalar(o, _) => (o, 32) };
+                            let honest_hex = hex::encode(&b[off..off + n]);
+                            if text.matches(&honest_hex).count() != 1 { continue; }
+                            for (name, forbidden, rep) in substitutions(slot, &b[off..off + n]) {
+                                let Some(item) = cx.item() else { continue };
+                                let mut expect = b.clone();
+                                expect[off..off + n].copy_from_slice(&rep);
+                                let t2 = text.replace(&honest_hex, &hex::encode(&rep));
+                                let t3 = t2.clone();
+                                cx.step(victim, "json-decode", StepOpts::default(), move || api::from_json(suite, art, &t3), move |cx, st| {
+                                    cx.cur_item = Some(item);
+                                    cx.eval(&[b"json-subst", art.name().as_bytes(), t2.as_bytes()], true);
+                                    cx.count(&format!("fault.json:{name}"));
+                                    match &st.out {
+                                        Ok(Ok(re)) => {
+                                            cx.count("verdict.accepted");
+                                            if re != &expect { cx.violation("C09", format!("serde::{}/accepted-non-canonical/{name}", art.name()), format!("{name}@{off}: the JSON form decodes, but re-encodes to other octets")); }
+                                            else if forbidden { cx.violation("C09", format!("serde::{}/forbidden-accepted/{name}", art.name()), format!("{name}@{off}: {t2} decodes")); }
+                                        }
+                                        Ok(Err(_)) => cx.count("verdict.rejected"),
+                                        Err(_) => cx.count("verdict.crash"),
+                                    }
+                                    cx.cur_item = None;
+                                });
+                            }
+                        }
+                    });
+                }
             }
         }
     });
